@@ -47,6 +47,9 @@ fn small_int_values(n: usize) -> BoxedStrategy<(String, Vec<i64>)> {
             ("int:increasing_run".to_string(), steps.into_iter().map(|d| { cur += d; cur }).collect())
         }),
         1 => vec(0i64..2_000_000_000, n).prop_map(|v| ("int:timestamps".to_string(), v)),
+        // narrow windows at the two ends of i64 (offset encodings whose base is next to the type's limits;
+        // i64::MAX itself is the engine's NULL marker and is not a storable value)
+        1 => (any::<bool>(), vec(0i64..200, n)).prop_map(|(top, v)| ("int:i64_edge_window".to_string(), v.into_iter().map(|x| if top { i64::MAX - 1 - x } else { i64::MIN + 1 + x }).collect())),
     ]
     .boxed()
 }
